@@ -205,7 +205,7 @@ pub fn parse(data: &str) -> Result<KyGElements, Error> {
                         },
                     );
                 }
-                _ => println!("Desconocido"),
+                _ => log::warn!("Tipo de elemento desconocido en KyGananciasSolares.txt: {}", tipo),
             };
         }
         // Ganancias solares de hueco
